@@ -31,7 +31,7 @@ ASSUMPTIONS = [
 ]
 
 
-def make_graph_server(graph: dict[int, list[int]], silent: list[list[int]], nrc_mode: str, log: list[tuple[int, bytes]]) -> Any:
+def make_graph_server(graph: dict[int, list[int]], silent: list[list[int]], nrc_mode: str, log: list[tuple[int, bytes]], reset_answer: str = "positive") -> Any:
     from gallia.services.uds.core import service
     from gallia.services.uds.core.constants import UDSErrorCodes, UDSIsoServices
     from gallia.services.uds.server import UDSServer
@@ -66,6 +66,12 @@ def make_graph_server(graph: dict[int, list[int]], silent: list[list[int]], nrc_
                 if nrc_mode == "cnc" and tgt in all_targets and tgt % 3 == 0:
                     return service.NegativeResponse(0x10, UDSErrorCodes.conditionsNotCorrect)
                 return service.NegativeResponse(0x10, UDSErrorCodes.subFunctionNotSupported)
+            if sid == 0x11 and len(pdu) == 2:
+                # ECUReset: the ECU reboots into the default session - and answers, stays silent, or refuses
+                if reset_answer == "nrc":
+                    return service.NegativeResponse(0x11, UDSErrorCodes.conditionsNotCorrect)
+                self.state.reset()
+                return None if (reset_answer == "silent" or pdu[1] & 0x80) else service.ECUResetResponse(pdu[1] & 0x7F)
             if sid == 0x3E and len(pdu) == 2:
                 return None if pdu[1] & 0x80 else service.TesterPresentResponse()
             if pdu == b"\x22\xf1\x86":
@@ -127,9 +133,16 @@ def graph_case(draw) -> dict[str, Any]:
         skip = list(range(start, min(0x80, start + draw(st.integers(2, 4)))))
     else:
         skip = draw(st.lists(st.sampled_from([x for x in nodes if x != 1] or [2]), unique=True, max_size=2))
+    depth = draw(st.sampled_from([1, 2, 2, 3, 3, 4, 5]))
+    thorough = draw(st.booleans())
+    # a thorough scan enumerates every walk: keep the amount of work (walks x 127 probes) inside what the request budget allows,
+    # so that an exhausted budget always means "does not terminate"
+    maxdeg = max(len(v) for v in edges.values())
+    while thorough and depth > 1 and maxdeg ** (depth - 1) * 127 * (depth + 1) > 250000:
+        depth -= 1
     return {"kind": "graph", "graph": {str(a): sorted(b) for a, b in edges.items()}, "silent": [list(e) for e in silent],
-            "nrc_mode": draw(st.sampled_from(["plain", "plain", "inactive", "cnc"])), "depth": draw(st.sampled_from([1, 2, 2, 3, 3, 4, 5])),
-            "skip": sorted(skip), "thorough": draw(st.booleans())}
+            "nrc_mode": draw(st.sampled_from(["plain", "plain", "inactive", "cnc"])), "depth": depth,
+            "skip": sorted(skip), "thorough": thorough}
 
 
 @st.composite
@@ -148,7 +161,11 @@ def chain_case(draw) -> dict[str, Any]:
         edges[a].add(b)
     return {"kind": "graph", "graph": {str(a): sorted(b) for a, b in edges.items()}, "silent": [],
             "nrc_mode": draw(st.sampled_from(["inactive", "inactive", "cnc", "plain"])), "depth": draw(st.integers(2, 5)),
-            "skip": [], "thorough": draw(st.sampled_from([False, False, True]))}
+            "skip": [], "thorough": draw(st.sampled_from([False, False, True])), "reset": draw(reset_s) if k <= 3 else None}
+
+
+# --reset LEVEL: the scanner resets the ECU before every probe; the ECU answers the reset, reboots silently, or refuses it
+reset_s = st.one_of(st.none(), st.none(), st.tuples(st.sampled_from([1, 2]), st.sampled_from(["positive", "silent", "silent", "nrc"])).map(list))
 
 
 @st.composite
@@ -169,7 +186,7 @@ def detour_case(draw) -> dict[str, Any]:
             edges[a].add(b)
     depth = s_len + t_len + draw(st.sampled_from([0, 0, 0, 1]))
     return {"kind": "graph", "graph": {str(a): sorted(b) for a, b in edges.items()}, "silent": [], "nrc_mode": draw(st.sampled_from(["plain", "inactive"])),
-            "depth": min(depth, 5), "skip": [], "thorough": draw(st.sampled_from([False, False, False, True]))}
+            "depth": min(depth, 5), "skip": [], "thorough": draw(st.sampled_from([False, False, False, True])), "reset": draw(reset_s)}
 
 
 @st.composite
@@ -187,7 +204,7 @@ def run_case(case: dict[str, Any]) -> dict[str, Any]:
     if case["kind"] == "graph":
         edges = {int(k): set(v) for k, v in case["graph"].items()}
         silent = {(a, b) for a, b in case["silent"]}
-        server = make_graph_server(case["graph"], case["silent"], case["nrc_mode"], log)
+        server = make_graph_server(case["graph"], case["silent"], case["nrc_mode"], log, (case.get("reset") or [0, "positive"])[1])
     else:
         server = vecu.make_server(case["seed"], case["params"], [])
         server.randomize()
@@ -197,9 +214,9 @@ def run_case(case: dict[str, Any]) -> dict[str, Any]:
         edges = {s: {t for t in ts} for s, ts in edges.items()}
         silent = set()
     cfg = SessionsScannerConfig(target="tcp-lines://127.0.0.1:1", depth=case["depth"], skip=list(case["skip"]), thorough=case["thorough"],
-                                dumpcap=False, timeout=0.5, max_retries=0, properties=False)
+                                dumpcap=False, timeout=0.5, max_retries=0, properties=False, reset=(case.get("reset") or [None])[0])
     nodes = len(edges)
-    budget = 2000 + (case["depth"] + 1) * (nodes ** (case["depth"] if case["thorough"] else 1) + nodes) * 140 * 4
+    budget = (2000 + (case["depth"] + 1) * (nodes ** (case["depth"] if case["thorough"] else 1) + nodes) * 140 * 4) * (4 + case["depth"] if case.get("reset") else 1)
     r = run_scanner(SessionsScanner, cfg, server, budget=min(budget, 600000))
     r["edges"] = edges
     r["silent"] = silent
@@ -269,7 +286,8 @@ def run_shard(spec: dict[str, Any], seed: int) -> Collector:
 
     def body(case: dict[str, Any]) -> None:
         res = check(case)
-        col.case(str(case), nontrivial(case), cls=f"{case['kind']}/depth{case['depth']}/" + ("thorough" if case["thorough"] else "normal") + ("/skip" if case["skip"] else ""),
+        col.case(str(case), nontrivial(case), cls=f"{case['kind']}/depth{case['depth']}/" + ("thorough" if case["thorough"] else "normal") + ("/skip" if case["skip"] else "")
+                 + (f"/reset-{case['reset'][1]}" if case.get("reset") else ""),
                  sample=case)
         for b, m in res:
             col.violation(b, case, m)
